@@ -33,6 +33,7 @@ func main() {
 		jsonO  = flag.Bool("json", false, "print obligations as JSON (used by the variant sweep)")
 	)
 	extra := flag.String("extra", "", "JSON object merged into the evidence coverage (results of the variant sweep)")
+	dumpTypes := flag.Bool("dump-types", false, "print the unexported named types of the module (the pinned table of inline.go) and exit")
 	dumpFields := flag.Bool("dump-fields", false, "print the fields of the module's struct types (the pinned table of inline.go) and exit")
 	dumpFn := flag.Bool("dump-funcs", false, "print the names of the library functions (the pinned table of inline.go) and exit")
 	genV := flag.String("gen-variants", "", "write single-edit variants of the library sources of -repo into this directory and exit")
@@ -86,6 +87,12 @@ func main() {
 	}
 	start := time.Now()
 	w, err := loadWorld(*repo, *tier)
+	if *dumpTypes && err == nil {
+		for _, n := range w.libTypeTable() {
+			fmt.Println(n)
+		}
+		return
+	}
 	if *dumpFields && err == nil {
 		for _, n := range w.libStructFields() {
 			fmt.Println(n)
